@@ -564,10 +564,16 @@ impl Store {
                 Some("ok".into())
             }
             ["open"] | ["reopen"] => {
-                let r = self.open();
+                let mut r = self.open();
+                if r.starts_with("err") {
+                    // a transient fault hit the open itself: report it and try once more
+                    let r2 = self.open();
+                    r = format!("{} retry-{}", r, r2.replace(' ', "-"));
+                }
                 let t = self.take_trace();
                 Some(format!("{}{}", r, t))
             }
+            ["seq"] => Some(self.io.as_ref()?.seq().to_string()),
             ["close"] => {
                 self.close();
                 let t = self.take_trace();
